@@ -306,3 +306,115 @@ Theorem C11_schema_card_implicit_iff :
   (pc_card a false packed = 1 <-> (is_repeated (fa_label a) = false /\ has_presence a = false)).
 Proof. exact pc_card_implicit_iff. Qed.
 Print Assumptions C11_schema_card_implicit_iff.
+
+(* ------------------------------------------------------------------------------------------ *)
+(** * Tier T: the statements above for the Gallina translation of the Go source
+
+    Gen/PresenceGo.v is regenerated on every check from internal/impl/presence.go and
+    api_export_opaque.go by srcmodel_presence (unsafe pointer arithmetic kept: addresses are
+    absolute, the XXX_presence array is [heap_of P s] = words [s] stored from address [P] on; an
+    access outside the array is the outcome Panic).  Proofs: Msg/PresenceGoP.v.  [addr_ok P s]:
+    the array lies inside the 64-bit address space.  Single-threaded: atomic.CompareAndSwapUint32
+    is one sequentially consistent step (interleavings are C18's concern). *)
+From Coq Require Import ZArith.
+From PB Require Import Base.GoInt Msg.PresenceHeap Gen.PresenceGo Msg.PresenceGoP.
+Open Scope N_scope.
+
+(** toElem addresses word num/32: 4 * (num / 32) bytes from the base *)
+Theorem C11_go_toElem_word_address :
+  forall P s num, addr_ok P s -> num < 32 * N.of_nat (length s) ->
+  go_presence_toElem P (Z.of_N num) = (P + 4 * Z.of_N (pword num))%Z.
+Proof. exact go_toElem_model. Qed.
+Print Assumptions C11_go_toElem_word_address.
+Example C11_go_nonvacuous :
+  addr_ok 4096 [0; 0; 0] /\ 70 < 32 * N.of_nat (length [0; 0; 0]) /\ bm_wf [0; 0; 0] /\
+  go_presence_toElem 4096 70 = 4104%Z /\
+  go_presence_SetPresent (heap_of 4096 [0; 0; 0]) 4096 70 96 = Val (heap_of 4096 [0; 0; 64]) /\
+  go_presence_Present (heap_of 4096 [0; 0; 64]) 4096 70 = Val true /\
+  go_presence_Present (heap_of 4096 [0; 0; 64]) 4096 38 = Val false /\
+  go_presence_Present (heap_of 4096 [0; 0; 64]) 4096 96 = Panic /\
+  go_presence_ClearPresent (heap_of 4096 [0; 5; 64]) 4096 34 = Val (heap_of 4096 [0; 1; 64]) /\
+  go_presence_AnyPresent (heap_of 4096 [0; 2]) 4096 33 = Val true /\
+  go_presence_AnyPresent (heap_of 4096 [0; 2]) 4096 32 = Val false.
+Proof. unfold addr_ok. repeat split; try (repeat constructor; fail); try reflexivity; vm_compute; congruence. Qed.
+
+Theorem C11_go_Present_eq_model :
+  forall P s num, addr_ok P s -> num < 32 * N.of_nat (length s) ->
+  go_presence_Present (heap_of P s) P (Z.of_N num) = Val (bm_present s num).
+Proof. exact go_Present_model. Qed.
+Print Assumptions C11_go_Present_eq_model.
+
+(** beyond the array the source reads memory it does not own *)
+Theorem C11_go_Present_outside_array_faults :
+  forall P s num, addr_ok P s -> num < 2^32 -> 32 * N.of_nat (length s) <= num ->
+  go_presence_Present (heap_of P s) P (Z.of_N num) = Panic.
+Proof. exact go_Present_out_of_range. Qed.
+Print Assumptions C11_go_Present_outside_array_faults.
+
+Theorem C11_go_SetPresent_eq_model :
+  forall P s num size, addr_ok P s -> bm_wf s -> num < 32 * N.of_nat (length s) ->
+  go_presence_SetPresent (heap_of P s) P (Z.of_N num) size = Val (heap_of P (bm_set s num)).
+Proof. exact go_SetPresent_model. Qed.
+Print Assumptions C11_go_SetPresent_eq_model.
+
+Theorem C11_go_SetPresentUnatomic_eq_model :
+  forall P s num size, addr_ok P s -> bm_wf s -> num < 32 * N.of_nat (length s) ->
+  go_presence_SetPresentUnatomic (heap_of P s) P (Z.of_N num) size = Val (heap_of P (bm_set s num)).
+Proof. exact go_SetPresentUnatomic_model. Qed.
+Print Assumptions C11_go_SetPresentUnatomic_eq_model.
+
+Theorem C11_go_ClearPresent_eq_model :
+  forall P s num, addr_ok P s -> num < 32 * N.of_nat (length s) ->
+  go_presence_ClearPresent (heap_of P s) P (Z.of_N num) = Val (heap_of P (bm_clear s num)).
+Proof. exact go_ClearPresent_model. Qed.
+Print Assumptions C11_go_ClearPresent_eq_model.
+
+Theorem C11_go_AnyPresent_eq_model :
+  forall P s size, addr_ok P s -> size < 2^32 -> u32 (size + 31) / 32 <= N.of_nat (length s) ->
+  go_presence_AnyPresent (heap_of P s) P (Z.of_N size) = Val (bm_any s size).
+Proof. exact go_AnyPresent_model. Qed.
+Print Assumptions C11_go_AnyPresent_eq_model.
+
+Theorem C11_go_LoadPresenceCache_first_word :
+  forall P s, addr_ok P s -> (0 < P)%Z -> (0 < length s)%nat ->
+  go_presence_LoadPresenceCache (heap_of P s) P = Val (Z.of_N (nth 0 s 0)).
+Proof. exact go_LoadPresenceCache_model. Qed.
+Print Assumptions C11_go_LoadPresenceCache_first_word.
+
+(** the set-refinement statements (C11_bitmap_set_refines / _clear_refines / _any_present) for
+    the translated source, in terms of the translated Present *)
+Theorem C11_go_SetPresent_refines_set :
+  forall P s i j size,
+  addr_ok P s -> bm_wf s -> i < 32 * N.of_nat (length s) -> j < 32 * N.of_nat (length s) ->
+  exists h', go_presence_SetPresent (heap_of P s) P (Z.of_N i) size = Val h' /\
+    (forall b, go_presence_Present (heap_of P s) P (Z.of_N j) = Val b ->
+               go_presence_Present h' P (Z.of_N j) = Val ((i =? j) || b)).
+Proof. exact go_SetPresent_then_Present. Qed.
+Print Assumptions C11_go_SetPresent_refines_set.
+
+Theorem C11_go_SetPresentUnatomic_refines_set :
+  forall P s i j size,
+  addr_ok P s -> bm_wf s -> i < 32 * N.of_nat (length s) -> j < 32 * N.of_nat (length s) ->
+  exists h', go_presence_SetPresentUnatomic (heap_of P s) P (Z.of_N i) size = Val h' /\
+    (forall b, go_presence_Present (heap_of P s) P (Z.of_N j) = Val b ->
+               go_presence_Present h' P (Z.of_N j) = Val ((i =? j) || b)).
+Proof. exact go_SetPresentUnatomic_then_Present. Qed.
+Print Assumptions C11_go_SetPresentUnatomic_refines_set.
+
+Theorem C11_go_ClearPresent_refines_set :
+  forall P s i j,
+  addr_ok P s -> i < 32 * N.of_nat (length s) -> j < 32 * N.of_nat (length s) ->
+  exists h', go_presence_ClearPresent (heap_of P s) P (Z.of_N i) = Val h' /\
+    (forall b, go_presence_Present (heap_of P s) P (Z.of_N j) = Val b ->
+               go_presence_Present h' P (Z.of_N j) = Val (negb (i =? j) && b)).
+Proof. exact go_ClearPresent_then_Present. Qed.
+Print Assumptions C11_go_ClearPresent_refines_set.
+
+Theorem C11_go_AnyPresent_iff_some_bit :
+  forall P s size,
+  addr_ok P s -> bm_wf s -> size + 31 < 2^32 -> (size + 31) / 32 <= N.of_nat (length s) ->
+  exists b, go_presence_AnyPresent (heap_of P s) P (Z.of_N size) = Val b /\
+    (b = true <-> exists i, i < 32 * ((size + 31) / 32) /\
+                            go_presence_Present (heap_of P s) P (Z.of_N i) = Val true).
+Proof. exact go_AnyPresent_iff_some_bit. Qed.
+Print Assumptions C11_go_AnyPresent_iff_some_bit.
